@@ -10,10 +10,14 @@ RULE = ("programs split over 1..4 module files in nested directories (main -> A,
         "modules; main reads A/n, A/f(), A/C/n and its own n, and also tries names that must not be visible. Oracle: the "
         "structured semantics of the inlined program in which every module identifier is renamed apart by its alias path "
         "(so capture in either direction changes the output) and _ডাইরেক্টরি is the directory of the file it is written in. "
-        "Also compared with the Lean model. Non-trivial: at least two files define the same name.")
+        "Also compared with the Lean model. Non-trivial: at least two files define the same name."
+        ' Name pools that are a prefix / an extension of the names the import step leaves unqualified (`_`, `_প`, platform / directory constant plus suffix); directory and file names outside ASCII, with blanks, dots, one character.')
 ASSUMPTIONS = ["user identifiers contain no '/' (NoSlash); module paths are clean relative paths"]
 default_compare = lambda m, i: C.compare_run(m, i)
 POOL = ["ক", "_খ", "গ"]   # one user name starts with an underscore like the built-ins do (private-helper convention): it is namespaced like any other
+_PLAT, _DIR = G.canon("_প্ল্যাটফর্ম"), G.canon("_ডাইরেক্টরি")
+POOLS = [POOL, POOL, ["_", "ক", "গ"], ["_", "__", _PLAT[:2]], [_PLAT[:-1], _PLAT + "২", "ক"], [_DIR[:-1], _DIR + "-২", "_"],
+         [G.canon("_টাইপ") + "২", G.canon("_স্ট্রিং")[:-1], "_খ"], ["ক", "কক", "ককক"]]
 FILES = ["a.pakhi", "lib/b.pakhi", "lib/inner/c.pakhi", "d.pakhi"]
 KEEP = None
 
@@ -125,6 +129,10 @@ def cases(rng, tier, stats):
     for i in range(n):
         r = rng.fork(f"m{i}")
         shape = r.choice(shapes)
+        # the three colliding names of this program: plain ones, or names that are a prefix / an extension of the names the
+        # import step leaves unqualified (`_`, `_প`, the platform and directory constants plus a suffix, a built-in's name plus a suffix)
+        global POOL
+        POOL = list(r.choice(POOLS))
         units = {}
         aliases = ["মড", "ক", "লাইব", "A"]
         def build(children, tag, fname):
@@ -166,7 +174,11 @@ def cases(rng, tier, stats):
     root = "@ROOT@"
     nd = 0
     layouts = [["helper.pakhi"], ["lib/sub.pakhi"], ["helper.pakhi", "lib/sub.pakhi"], ["lib/deep/x.pakhi", "helper.pakhi"],
-               ["helper.pakhi", "other.pakhi"], ["lib/sub.pakhi", "lib/deep/x.pakhi"]]
+               ["helper.pakhi", "other.pakhi"], ["lib/sub.pakhi", "lib/deep/x.pakhi"],
+               # directory and file names outside ASCII (multi-byte in UTF-8), with a blank, with a dot, of one character
+               ["\u0997\u09a3\u09bf\u09a4/\u0997\u09a3\u09bf\u09a4.pakhi"], ["lib/\u0997\u09ad\u09c0\u09b0/x.pakhi", "\u09b8\u09b9\u09be\u09af\u09bc\u0995.pakhi"],
+               ["\u09a4\u09a5\u09cd\u09af \u09ad\u09be\u09a3\u09cd\u09a1\u09be\u09b0/\u0995.pakhi", "\u0995/\u0996/\u0997.pakhi"], ["\u00e9t\u00e9/x.pakhi", "lib.v2/sub.pakhi"],
+               ["\u0995/x.pakhi", "\u0995\u0996/x.pakhi"], ["a/\u09a1\u09be\u0987\u09b0\u09c7\u0995\u09cd\u099f\u09b0\u09bf/m.pakhi", "\u09e7\u09e8/\u09e9.pakhi"]]
     for files in layouts:
         for nested in (False, True):
             lines = ["RESET", "FILE " + C.hx(f"{root}/data.txt") + " " + C.hx("মূল-তথ্য")]
